@@ -970,6 +970,15 @@ def all_paths(n):
             yield ((i, j),) + rest
 
 
+def each(mk, name, options):
+    """symbolic mode: fork one exploration path per option (each is decided with its own hypotheses);
+    numeric mode: all options in one run"""
+    options = list(options)
+    if mk.sym:
+        return [mk.choice(name, options)]
+    return options
+
+
 class Watch:
     """callbacks of a compressed contraction: records every compression (sizes before / bond after)"""
 
@@ -1054,7 +1063,7 @@ def contract_compressed_all_paths(mk, geom, chi, opt):
         paths = paths[:: max(1, len(paths) // 12)][:12]
     kw = dict(CC_OPTS[opt])
     nexact = 0
-    for p in paths:
+    for p in each(mk, "path", paths):
         w = Watch()
         res = tn.contract_compressed(optimize=p, max_bond=chi, cutoff=0.0, output_inds=out or None, **w.kw(), **kw)
         for l, b, r in w.post:
@@ -1068,5 +1077,4 @@ def contract_compressed_all_paths(mk, geom, chi, opt):
             val = res.transpose(*out).data if isinstance(res, qtn.Tensor) and out else value(res)
         mk.eq(f"contract_compressed(optimize={p}, max_bond={chi}, cutoff=0.0, {opt}) == exact value "
               f"({len(w.pre)} compressions, all rank-safe)", val, want)
-    mk.same("at least one path is in the exact regime", nexact > 0, True)
     mk.eq("the network is left alone", exact(tn, out), want)
